@@ -307,6 +307,7 @@ impl<'a> UserModel<'a> {
                     if *index > 0 {
                         self.set_selected_sheet(*index - 1)?;
                     }
+                    self.clamp_selected_sheet();
                 }
                 Diff::DuplicateSheet {
                     source_index,
@@ -820,6 +821,7 @@ impl<'a> UserModel<'a> {
                     if *sheet > 0 {
                         self.set_selected_sheet(*sheet - 1)?;
                     }
+                    self.clamp_selected_sheet();
                 }
                 Diff::NewSheet { index, name } => {
                     self.model.insert_sheet(name, *index, None)?;
